@@ -96,6 +96,10 @@ fn content_table(a: &Answer) -> Option<BTreeMap<String, String>> {
         m.segs.iter().filter_map(|s| s.attr.as_ref().map(|a| a.file.as_str())).collect();
       let mut t = BTreeMap::new();
       for (i, name) in m.sources.iter().enumerate() {
+        // an empty name cannot be told from the placeholder of an unused index
+        if name.is_empty() {
+          continue;
+        }
         // the attribution's file name has sourceRoot applied; compare by suffix
         if used.iter().any(|u| u.ends_with(name.as_str())) {
           t.insert(name.clone(), m.sources_content.get(i).cloned().unwrap_or_default());
@@ -109,7 +113,7 @@ fn content_table(a: &Answer) -> Option<BTreeMap<String, String>> {
         st.segs.iter().filter_map(|s| s.attr.as_ref().map(|a| a.file.as_str())).collect();
       let mut t = BTreeMap::new();
       for (name, content) in st.sources.values() {
-        if used.contains(name.as_str()) {
+        if !name.is_empty() && used.contains(name.as_str()) {
           t.insert(name.clone(), content.clone().unwrap_or_default());
         }
       }
